@@ -13,7 +13,7 @@ INFO = {
                    "Fr::from(BigUint::from_bytes_le(in[0..32])) and the 8-byte one is usize::to_le_bytes zero-padded / u64::from_le_bytes; no "
                    "big-endian constructor is reachable from any codec; deserialize_witness returns Ok only when len == bytes consumed "
                    "(missing/trailing bytes clause); the JSON witness uses the same compression mode in both directions. Layout table "
-                   "transcribed from the doc comments of rln/src/protocol.rs and rln/src/public.rs. R10-5 whole-message I/O: no function of rln::public / protocol / utils / hashers calls Read::read or Write::write (partial transfer); inventory over the MIR call terminators. R10-6 no over-rejection: every length guard of a decoder (request, witness, vector and verification readers and the helpers they call) rejects only inputs on which a later read would be out of bounds (decided with the linear facts of the obligation engine; loop reads are instantiated at the last iteration).",
+                   "transcribed from the doc comments of rln/src/protocol.rs and rln/src/public.rs. R10-5 whole-message I/O: no function of rln::public / protocol / utils / hashers calls Read::read or Write::write (partial transfer); inventory over the MIR call terminators. R10-6 no over-rejection: every length guard of a decoder (request, witness, vector and verification readers and the helpers they call) rejects only inputs on which a later read would be out of bounds (decided with the linear facts of the obligation engine; loop reads are instantiated at the last iteration). R10-7 decimal JSON witness: to_bigint(el) = BigInt::from(BigUint::from(el)) on one unconditional path, and each of the seven documented keys of rln_witness_to_bigint_json carries the base-10 string of the same-named witness field (path vectors element-wise).",
     "not_decided": "value-level losslessness rests on the opaque BigUint/Fr conversions and Vec::resize; ark's own Vec<usize> compressed format",
     "assumptions": ["BigUint::to_bytes_le/from_bytes_le, Vec::resize, usize::to_le_bytes, u64::from_le_bytes have their documented meaning"],
 }
